@@ -56,6 +56,21 @@ func c14Check2(cs []tcue, d int64, filler bool, d2 int64) string {
 		snaps[k] = snapItem(it)
 	}
 	ptrs := append([]*astisub.Item(nil), sub.Items...)
+	// another list of this process got a filler earlier, and its owner has since edited that cue in place
+	pristine := ""
+	if filler {
+		other := astisub.NewSubtitles()
+		if p := guard(func() { other.ForceDuration(5*time.Millisecond, true) }); p != "" {
+			return p
+		}
+		if len(other.Items) == 1 && len(other.Items[0].Lines) > 0 && len(other.Items[0].Lines[0].Items) > 0 {
+			f := other.Items[0]
+			pristine = itemText(f)
+			f.Lines[0].Items[0].Text = "edited by its owner"
+			f.Lines[0].Items[0].InlineStyle = &astisub.StyleAttributes{SRTBold: true}
+			f.Lines[0].VoiceName = "owner"
+		}
+	}
 	if p := guard(func() { sub.ForceDuration(time.Duration(d), filler) }); p != "" {
 		return p
 	}
@@ -74,6 +89,9 @@ func c14Check2(cs []tcue, d int64, filler bool, d2 int64) string {
 		}
 		if len(itemText(f)) == 0 {
 			return fmt.Sprintf("%s: filler cue has no placeholder text", desc)
+		}
+		if pristine != "" && (itemText(f) != pristine || f.Lines[0].VoiceName != "" || f.Lines[0].Items[0].InlineStyle != nil) {
+			return fmt.Sprintf("%s: the filler cue reads %q (voice %q), the filler of an earlier, unrelated list read %q before its owner edited it in place: fillers share their content", desc, itemText(f), f.Lines[0].VoiceName, pristine)
 		}
 	}
 	for k := 0; k < n; k++ {
@@ -161,6 +179,12 @@ func c14Lists(tier string) [][]tcue {
 
 func c14Random(r *fw.Rand) ([]tcue, int64) {
 	n := r.Intn(30)
+	switch r.Intn(10) {
+	case 0, 1:
+		n = r.Range(30, 300) // long enough for any size-dependent path (binary search, chunking)
+	case 2:
+		n = fw.Pick(r, []int{63, 64, 65, 66, 127, 128, 129, 255, 256, 257, 1023, 1024, 1025, r.Range(300, 3000)})
+	}
 	cs := make([]tcue, n)
 	var s, e int64
 	for i := range cs {
